@@ -1,36 +1,36 @@
 import json, os, shutil, glob
-W='m'
+W='n'
 rows = {
- 'C01': ("per-dump table cache capped at 1024 entries and emptied when a new id arrives at the cap",
-         "a dump that has seen exactly k*1024 table ids, then a multi-table statement whose second table map carries the next new id",
-         "C01: count, stream-result"),
- 'C02': ("query events whose default database is mysql / information_schema / performance_schema / sys skipped before classification, BEGIN/COMMIT included",
-         "a transaction logged by a session whose default database is a server schema",
-         "C02: early-delivery, grouping, rollback-delivered - **missed at first** (server schema names are now among the default databases of query events and among the table schemas)"),
- 'C03': ("file name of the dump's opening artificial ROTATE adopted with a guess about a trailing CRC",
-         "CRC32 stream whose opening rotate's checksum bytes read like '.digits' or four digits (about 1 start in 7800)",
-         "C03: chain, crash-restart-exactly-once, resume-suffix"),
- 'C04': ("STOP_EVENT treated as end of stream: parseEvents returns at it",
-         "a file that ends with a STOP event, the next file announced only by the artificial rotate, transactions in it",
-         "C04: lost"),
- 'C05': ("start offsets outside 0..2^32-1 refused after the connection is up and before its close is deferred",
-         "SetBinlogPosition with an Offset of 2^32 or more, connection attempt succeeds",
-         "C05: goroutine-leak:watcher, socket-not-closed - **missed at first** (one C05 scenario in sixteen now adds a multiple of 2^32 to the offset given to SetBinlogPosition; the dump request carries the low 32 bits, so the master sees the same coordinate)"),
- 'C06': ("undecodable FORMAT_DESCRIPTION that is not the first of the attempt logged and ignored",
-         "a FORMAT_DESCRIPTION of binlog version 3 / header length < 19 after a valid one, then a clean end",
-         "C06: stream-nil-on-failure (through the undecodable-event variants added in wave j)"),
- 'C07': ("DDL query inside BEGIN..XID acts as commit point (same line as C03-i/C04-i), judged on the dump request",
-         "attempt ending between an in-transaction DDL and its XID, then another attempt",
-         "C07: offset"),
- 'C08': ("per-event buffers from a sync.Pool, returned by a finalizer on the decoded StreamEvent",
-         "a consumer that keeps only delivered value slices and drops the Transaction, a GC cycle, a later packet",
-         "C08: mutated-after-delivery - **missed at first** (an eighth of the C08 cases run a consumer that keeps the value slices only and forces garbage collections between deliveries and at the end)"),
- 'C15': ("mapper failure tolerated for schema 'mysql': table map cached without mapper table, its rows events skipped",
-         "a table of schema mysql whose lookup fails, rows events for it",
-         "C15: attribution"),
- 'C17': ("reader splits a packet that is an exact concatenation of complete events and serves the pieces",
-         "an over-long packet consisting of two or more well-formed events back to back",
-         "C17: accepted-malformed, partial-delivery - **missed at first** (a third of the 'well-formed event extended' payloads are now extended by one or two further complete events instead of random bytes)"),
+ 'C01': ("Bitmap.BitCount counts the set padding bits of the last byte (same line as C15-k, judged on values)",
+         "a partial row image whose columns-present bitmap has its unused bits set to 1",
+         "C01: value:*, row-count, count, panic (caught through the padding-bit generator added in wave k)"),
+ 'C02': ("an XID whose xid equals the last accepted XID-closed transaction's is treated as a replay: pending changes dropped",
+         "two XID-closed transactions in one attempt with the same non-zero xid (a master restarted between them)",
+         "C02: grouping - **missed at first** (xids were random 64-bit values; they now repeat, count up or are 0)"),
+ 'C03': ("the parser's running position read back from the Transaction it handed to the handler",
+         "a handler that writes the label fields of the delivered Transaction before returning",
+         "C03: chain, resume-suffix, crash-restart-exactly-once - **missed at first** (the overwriting consumer, which also rewrites file names and offsets of both labels, now runs in a sixth of the C03 cases too)"),
+ 'C04': ("events whose header server_id equals the replica's own id skipped",
+         "a committed transaction stamped with the replica's own server id",
+         "C04: lost, reordered, resume-coordinate"),
+ 'C05': ("deferred cleanup replaced by an explicit stop() on ordinary return paths plus a recover() that turns a callback panic into a returned error",
+         "a handler or table mapper that panics",
+         "C05: error-blocks, goroutine-leak:*, socket-not-closed - **missed at first** (a fifth of the failing handlers / mappers of C05 now panic; the simulated application recovers around its Stream call, and the usual clean-up clauses are judged)"),
+ 'C06': ("dump packets whose first byte is neither 0x00 nor 0xff treated as the master's EOF",
+         "a packet that starts with a byte other than 0x00 / 0xfe / 0xff",
+         "C06: stream-nil-on-failure - **missed at first** (a sixth of the malformed packets now start with a random status byte 0x01..0xfd instead of 0x00)"),
+ 'C07': ("re-dial after a failed COM_BINLOG_DUMP write without repeating the per-session checksum SET",
+         "connection dies between the master's OK for the SET and the dump command; the re-dial succeeds",
+         "C07: no-checksum-set"),
+ 'C08': ("rows-event buffers of >= 1 KiB recycled unless the table has string/blob/geometry columns (BIT forgotten)",
+         "a table whose only by-reference column type is BIT, a rows event of 1 KiB or more, a retained BIT value",
+         "C08: later-delivery-corrupted, mutated-after-delivery, scribble-propagated - **missed at first** (half of the many-rows histories now use numeric + BIT tables)"),
+ 'C15': ("table-map cache keyed by (header server_id, table id)",
+         "events of one table id carrying different server ids",
+         "C15: mapper-call"),
+ 'C17': ("progress log line on every 10000th packet reads header fields before the validity gate",
+         "a malformed packet shorter than 17 bytes that is exactly the 10000th packet of a dump",
+         "C17: panic - **missed at first** (one C17 history in 200 now starts with 1000..10000 tiny ignorable events and the malformed packet is placed on the round ordinal)"),
 }
 for p,(chg,needs,caught) in rows.items():
     src=f'/tmp/wt-{p}-{W}/_seeded'
